@@ -288,6 +288,7 @@ func c07(r *core.Run) {
 	root := p.FuncsOfPkg("")
 	models := c04Models(r, "P1")
 	c07ReplySubjectNonEmpty(r, "P2", root)
+	c07MarshalersEscape(r, "P3", root)
 
 	// ---- P1 ----------------------------------------------------------------
 	funnelFns := map[*ssa.Function]bool{}
@@ -1530,5 +1531,89 @@ func c07ReplySubjectNonEmpty(r *core.Run, rule string, root []*ssa.Function) {
 	}
 	if n == 0 {
 		r.Unres(rule, "message-handler", "no function receives a message and hands it on")
+	}
+}
+
+// c07MarshalersEscape: the json.Marshaler implementations of the package (Ref,
+// SoftRef, DataValue ...) put variable text into their output only as
+// json.Marshal produced it: no string concatenation with a non-constant
+// operand and no conversion of a non-constant string to bytes in a MarshalJSON
+// method or its helpers. "A valid resource id needs no escaping" is false -
+// validity stops at the '?', and '\' or '"' are valid name characters.
+func c07MarshalersEscape(r *core.Run, rule string, root []*ssa.Function) {
+	p := r.P
+	// isConstText: a constant, or a parameter every call site binds to a constant (a fixed suffix)
+	isConstText := func(v ssa.Value) bool {
+		if _, ok := v.(*ssa.Const); ok {
+			return true
+		}
+		if _, ok := v.(*ssa.Parameter); !ok {
+			return false
+		}
+		as := paramArgs(p, v, 0)
+		if len(as) == 0 {
+			return false
+		}
+		for _, a := range as {
+			if _, ok := a.(*ssa.Const); !ok {
+				return false
+			}
+		}
+		return true
+	}
+	n := 0
+	for _, fn := range root {
+		if fn.Name() != "MarshalJSON" || fn.Signature.Recv() == nil || len(fn.Blocks) == 0 {
+			continue
+		}
+		n++
+		bad := ""
+		seen := map[*ssa.Function]bool{}
+		var tree []*ssa.Function
+		var walk func(f *ssa.Function, d int)
+		walk = func(f *ssa.Function, d int) {
+			if f == nil || seen[f] || len(f.Blocks) == 0 || f.Pkg != fn.Pkg || d > 3 {
+				return
+			}
+			seen[f] = true
+			tree = append(tree, f)
+			for _, c := range core.Calls(f) {
+				walk(c.Common().StaticCallee(), d+1)
+			}
+		}
+		walk(fn, 0)
+		for _, h := range tree {
+			for _, in := range instrsOf(h) {
+				switch x := in.(type) {
+				case *ssa.BinOp:
+					if x.Op == token.ADD && isStringType(x.Type()) {
+						if !isConstText(x.X) || !isConstText(x.Y) {
+							bad = "string concatenation at " + p.InstrPos(x)
+						}
+					}
+				case *ssa.Call:
+					if core.CalleeName(x) == "builtin:append" && len(x.Call.Args) == 2 && isStringType(x.Call.Args[1].Type()) {
+						if !isConstText(x.Call.Args[1]) {
+							bad = "append of a string's bytes at " + p.InstrPos(x)
+						}
+					}
+					if core.CalleeName(x) == "builtin:copy" && len(x.Call.Args) == 2 && isStringType(x.Call.Args[1].Type()) {
+						if !isConstText(x.Call.Args[1]) {
+							bad = "copy of a string's bytes at " + p.InstrPos(x)
+						}
+					}
+				case *ssa.Convert:
+					if isByteSlice(x.Type()) && isStringType(x.X.Type()) {
+						if !isConstText(x.X) {
+							bad = "conversion of a string to bytes at " + p.InstrPos(x)
+						}
+					}
+				}
+			}
+		}
+		r.Check(bad == "", rule, core.FuncName(fn), "variable-text-only-through-json.Marshal", p.Pos(fn.Pos()), "no hand-quoted variable text in the marshaler", "the marshaler puts variable text into its output without the JSON encoder ("+bad+"): a backslash, a quote, a control character or invalid UTF-8 in the value (all possible in a valid resource id, whose query part is free text) makes the enclosing message malformed or changes the value it decodes to")
+	}
+	if n == 0 {
+		r.Unres(rule, "MarshalJSON", "no json.Marshaler in the root package")
 	}
 }
